@@ -32,17 +32,7 @@ CLAIMED = {
         text="15 theorems against an independent specification of YAML 1.2.2 section 8.1 (Spec/BlockScalar.v: line model, content indentation, classification, block_value, renderer, decidable side conditions case_ok; imports nothing from the model; the spec's examples 8.2-8.13 are Examples). For the scanner model over the string input and the three line-break styles LF / CR LF / CR: content-line reader (buffered and raw path), indentation skipping (narrow and wide path), first-line auto-detection; scan_block_scalar returns block_value for literal and folded style, the three chompings, explicit or auto-detected indentation incl. 0, any header tail, ALL line lists with content followed by a less-indented line, end of input, or at indentation 0 a document marker '...' or '---'; every end-of-input shape (right after the last content line, inside a last line of fewer / exactly / more spaces than the indentation); content-less scalars; C05_case_partial: every case of the specification outside one class, from any scanner state at the indicator. The full statement C05_full stays visible and is machine-REFUTED by the one remaining recorded class (a top-level scalar whose first content line starts with a tab at column 0). Not theorems: contexts in front of the indicator, buffered back-ends (C10 transfers). Oracle/tie: 30k (thorough 600k) generated cases (style x chomping x indentation x context x header tail x break style x end shape x line content) - every scalar must equal the extracted spec's value on str, iterator and capacity-8 inputs; directed regression list for the three repaired classes (001a921, 42046c7).",
         ref="DESIGN.md 5/C05", tech='Rocq proof (scan_block_scalar = independent block_value spec, all cases from the indicator on, LF/CRLF/CR, string input) + extracted spec as oracle on implementation + differential correspondence'),
     "C06": dict(
-        text="42 theorems. Parser layer, for EVERY token stream: an accepted stream is bracket-balanced (second invariant Good/first_ok "
-             "carried through all 21 parser states next to C02's Inv) modulo the one recorded swallowed-closer rule, so no accepted stream "
-             "has an open, mismatched or stray flow closer; from every flow state an end-of-stream/document marker/block token/wrong closer "
-             "is a parse error at that token; a second root node, a directive without '...', an alias without anchor (also across documents), "
-             "an undeclared tag handle, a repeated %YAML, directives without '---' are each rejected at the stated site. Scanner layer: "
-             "unknown escapes, bad/truncated hex digits, non-scalar code points, stale required keys, ':' after an invalidated key, flow "
-             "level above the limit are errors. The closed full statement C06_full (renderer of well-formed trees composed with inductive "
-             "damage operators) is machine-REFUTED by the four recorded findings. Oracle/tie: 2.5k (thorough 29k) generated well-formed "
-             "streams x 15 damage classes / 47 operators must be rejected by events/str, events/iter and load, at the model's position; "
-             "all 94 fail:true suite cases. Known findings: stray closer after empty explicit key; long implicit key in flow sequence; "
-             "flow continuation at block indentation; multi-line flow pair key after a flow mapping.",
+        text=open(os.path.join(V, "design", "C06_manifest.txt")).read().strip(),
         ref="DESIGN.md 5/C06", tech="Rocq proof (bracket-balance invariant over all token streams; per-site rejection theorems; refutation of the full statement) + damage-operator rejection oracle on implementation + differential correspondence"),
     "C04": dict(
         text="19 theorems against an independent specification (Spec/FlowFold.v: escapes, break_text/fold_lines, presentations of plain, single- and double-quoted scalars with well-formedness, rendering and denoted text; imports nothing from the model). The GENERATED escape table of scanner.rs agrees pair by pair, in both directions, with the specification's table (an edited match arm breaks the proof on the next run); hex digits and read_hex for every digit list; \\x/\\u/\\U of every Unicode scalar value. C04_full_proved: for the scanner model over the string input, EVERY presentation the productions allow - any number of lines, folded breaks with trailing padding, empty lines, tabs after the required indentation, breaks written LF / CR / CR LF, escaped breaks, escapes, doubled quotes, block and flow context - followed by anything that may end the scalar, from any scanner state with a smaller indentation, is scanned to exactly the specified text (one break -> space, k+1 breaks -> k line feeds, blanks around a break dropped, an escaped break joins without a space): scan_plain_scalar (C04_plain_full_proved) and scan_flow_scalar (C04_quoted_full_proved). Not theorems: the buffered input (C10 transfers), tokens -> events (C02/C03/C07). Tie/oracle: target strings x independent presenters (escapes, folds, padding, LF/CR/CRLF) x 18 syntactic contexts on two back-ends, model pipeline vs implementation; regression stream for the two repaired findings (263b504, 0b5f0e0). No open known finding.",
@@ -106,25 +96,25 @@ CLAIMED = {
              "captures the real write_* call sequences and lookup results on 4 node types and compares them literally with the extracted model.",
         ref="DESIGN.md 5/C20", tech="Rocq proof (eq => equal hash stream; lookup agreement, all mappings) + recording-hasher correspondence + oracle on implementation"),
     "C01": dict(
-        text='14 theorems. NO PANIC: the pull parser never panics for ANY token stream (C02 stack invariant); the WHOLE scanner+parser model never panics for ANY input over a buffered input of ANY capacity >= 8 (every lookahead-contract site and every skeleton panic site of the ~70 scanner functions; WP calculus + skeleton invariant SInv) and over the string input (ported joint proof). BOUNDED WORK (string input): every scanner loop ends within the fuel F = 2|input|+10 (each iteration returns or consumes a character that is there; refresh rounds carry a finer measure), every dispatcher step is the stream-start step, consumes >= 1 character (raising the token potential by <= 5) or is the final stream end; the scanner delivers <= 5|input|+2 tokens, the parser makes <= 4*tokens+1 steps. TOGETHER (C01_pipeline_ends_properly): for EVERY input the model pipeline over the string input, given fuel linear in the input length, ends in a complete event stream or a first scan/parse error - never a panic, never fuel exhaustion. Not theorems: fuel on the buffered side and the byte-level StrInput overrides (tie), loaders (C07). Tie/oracle: 6 input back-ends (StrInput, BufferedInput, contract-CHECKING inputs of capacity 8/16/64/128) x {iterator, push, peek/next, 4 loaders} with panic capture, crash detection and input-call counting (bound 64n+4096); model instances str/buf16/buf8 must not end in MODELPANIC/MODELFUEL and must agree with the implementation. No open known finding (block nesting is limited since 99c201b).',
+        text='14 theorems. NO PANIC: the pull parser never panics for ANY token stream (C02 stack invariant); the WHOLE scanner+parser model never panics for ANY input over a buffered input of ANY capacity >= 8 (every lookahead-contract site and every skeleton panic site of the ~70 scanner functions; WP calculus + skeleton invariant SInv) and over the string input (ported joint proof). BOUNDED WORK (string input): every scanner loop ends within the fuel F = 2|input|+10 (each iteration returns or consumes a character that is there; refresh rounds carry a finer measure), every dispatcher step is the stream-start step, consumes >= 1 character (raising the token potential by <= 5) or is the final stream end; the scanner delivers <= 5|input|+2 tokens, the parser makes <= 4*tokens+1 steps. BOUNDED WORK (buffered input, any capacity >= 8): fuel transfer through a strengthened relational calculus in which OutOfFuel on the buffered side is forbidden (ScanFuelBuf*.v; own measures for the four places where the back-ends iterate differently), same fuel formulas. TOGETHER (C01_pipeline_ends_properly, C01_pipeline_ends_properly_buffered): for EVERY input the model pipeline over the string input AND over the buffered input of every capacity >= 8 (the back-end behind new_from_iter / load_from_str), given fuel linear in the input length, ends in a complete event stream or a first scan/parse error - never a panic, never fuel exhaustion. Not theorems: the byte-level StrInput overrides (tie), loaders (C07). Tie/oracle: 6 input back-ends (StrInput, BufferedInput, contract-CHECKING inputs of capacity 8/16/64/128) x {iterator, push, peek/next, mixed peek/next/load histories, 4 loaders} on the parse space incl. the systematic buffer-geometry sweep, with panic capture, crash detection and input-call counting (bound 64n+4096); model instances str/buf16/buf8 must not end in MODELPANIC/MODELFUEL and must agree with the implementation. No open known finding (block nesting is limited since 99c201b).',
         ref="DESIGN.md 5/C01", tech='Rocq proof (three joint proofs over the whole scanner model: panic freedom for buffered and string input, linear fuel sufficiency; parser potential) + panic/abort/call-count oracle on implementation + differential correspondence'),
     "C10": dict(
-        text="7 theorems. Per operation: buffered input refines string input (peek_nth, skip) under the buffer relation; for every capacity >= 8 the scanner honours the input contract. VALUE LEVEL (joint proof, relational WP between the scanner over the string input and over the buffered input of ANY capacity >= 8, incl. the paths where the back-ends genuinely differ: plain-scalar chunk refresh, block-scalar content line via buffer then raw read, wide indentation path): for all fuels the two scanner runs deliver the same token list and the same end (same error site at the same marker) - a run that breaks off for fuel delivers a prefix of the other; pipelines: run_str x = run_buf cap x unless the buffered run exhausts its fuel (the string run always ends properly by C01). Not theorems: fuel on the buffered side; the byte-level fast paths of StrInput (the model's string instance works on characters). Tie/oracle: implementation vs implementation on the C01 space plus inputs built around every buffer-dependent path: StrInput, BufferedInput and contract-checking inputs of capacity 8/16/64/128 must give identical events, spans, error message and position; model instances str/buf8/buf16/buf64 likewise and equal to the implementation.",
+        text="9 theorems. Per operation: buffered input refines string input (peek_nth, skip) under the buffer relation; for every capacity >= 8 the scanner honours the input contract. VALUE LEVEL (joint proof, relational WP between the scanner over the string input and over the buffered input of ANY capacity >= 8, incl. the paths where the back-ends genuinely differ: plain-scalar chunk refresh, block-scalar content line via buffer then raw read, wide indentation path): for all fuels the two scanner runs deliver the same token list and the same end (same error site at the same marker) - a run that breaks off for fuel delivers a prefix of the other; pipelines: with bounded work proved on the buffered side too (C01), C10_pipeline_backends_equal: run_buf cap x = run_str x for EVERY input and EVERY capacity >= 8 - same events, spans and error, no exception. Not theorems: the byte-level fast paths of StrInput (the model's string instance works on characters). Tie/oracle: implementation vs implementation on the C01 space plus inputs built around every buffer-dependent path: StrInput, BufferedInput and contract-checking inputs of capacity 8/16/64/128 must give identical events, spans, error message and position; model instances str/buf8/buf16/buf64 likewise and equal to the implementation.",
         ref="DESIGN.md 5/C10", tech='Rocq proof (relational joint proof: scanner and pipeline over string and buffered input compute the same tokens/events/errors) + back-end comparison on implementation + differential correspondence'),
     "C12": dict(
-        text="3 theorems. C12_scanner_positions_true / C12_pipeline_positions_true: for EVERY NUL-free input and every fuel, both "
+        text="4 theorems. C12_scanner_positions_true / C12_pipeline_positions_true: for EVERY NUL-free input and every fuel, both "
              "markers of every token span the scanner model produces, of every event span of the whole model pipeline, and the marker "
              "of the scan or parse error it may end with are TRUE positions of the input (index within the input, line = 1 + breaks "
              "before it with CR LF counted once, column = characters since the last break): joint proof ScanPos*.v carrying the "
              "invariant 'the mark is the recount of what has been consumed' through every scanner function (each skip justified by "
-             "the character just peeked), and true marks through the token queue, simple keys and parser states. "
+             "the character just peeked), and true marks through the token queue, simple keys and parser states; C12_pipeline_positions_true_buffered: the same for the buffered back-end of every capacity >= 8 (by C10_pipeline_backends_equal). "
              "C12_recount_is_line_and_column characterises the recount used as specification and oracle. The extracted marker_ok "
              "is applied to every marker of every span and error the implementation reports on both back-ends; span-shape rules, "
-             "Display of errors and MarkedYaml node spans are checked on the implementation; model pipeline vs implementation "
+             "Display of errors and MarkedYaml / MarkedYamlOwned node spans (eager, deferred and resolved loading) are checked on the implementation; model pipeline vs implementation "
              "including all spans and error positions. Known finding: an embedded NUL ends the stream at a false position.",
         ref="DESIGN.md 5/C12", tech="Rocq proof (mark invariant through the whole scanner and parser model, all NUL-free inputs; recount specification) + extracted oracle on every reported marker + differential correspondence"),
     "C14": dict(
-        text='6 theorems. Recount level: line and column of the image of a position are unchanged under LF -> CR LF. SCANNER + PARSER LEVEL (joint proof, relational WP between the run on a CR-free text and the run on its image under LF -> CR LF or LF -> CR, generic in the mode, independent fuels; index-valued state carried by invariants: same index shift for a possible simple key on the current line, adjacency equal on one side iff on the other): C14_crlf / C14_cr - for EVERY CR-free text the two substitutions give the same events (kind, scalar text with breaks as line feeds, style, anchor id, tag) with the same LINE and COLUMN in every span and the same end (PDone, or the same error site at the same line and column); no exception (panic and fuel are excluded by C01). Error MESSAGES are sites in the model; the tie compares messages. Tie/oracle: every CR-free input of the C01 space parsed as is, with CRLF and with lone CR on two back-ends: identical events, scalar text, line:column of every marker, verdict and error message; model vs implementation on the CRLF image.',
+        text='8 theorems. Recount level: line and column of the image of a position are unchanged under LF -> CR LF. SCANNER + PARSER LEVEL (joint proof, relational WP between the run on a CR-free text and the run on its image under LF -> CR LF or LF -> CR, generic in the mode, independent fuels; index-valued state carried by invariants: same index shift for a possible simple key on the current line, adjacency equal on one side iff on the other): C14_crlf / C14_cr - for EVERY CR-free text the two substitutions give the same events (kind, scalar text with breaks as line feeds, style, anchor id, tag) with the same LINE and COLUMN in every span and the same end (PDone, or the same error site at the same line and column); no exception (panic and fuel are excluded by C01); C14_crlf_buffered / C14_cr_buffered: the same between buffered runs of any capacities >= 8, unconditionally (C10_pipeline_backends_equal). Error MESSAGES are sites in the model; the tie compares messages. Tie/oracle: every CR-free input of the C01 space parsed as is, with CRLF and with lone CR on two back-ends: identical events, scalar text, line:column of every marker, verdict and error message; model vs implementation on the CRLF image.',
         ref="DESIGN.md 5/C14", tech='Rocq proof (relational joint proof over the whole scanner + parser model: break style changes nothing but indices) + three-way comparison on implementation + differential correspondence'),
     "C17": dict(
         text="Theorems C17_histories / C17_peek_is_next / C17_nothing_after_end: for EVERY deterministic core and EVERY peek/next history "
